@@ -228,7 +228,11 @@ class Text(ExcelType):
             raise xlerrors.ValueExcelError(
                 f'Could not convert {repr(self.value)} to float.')
         try:
-            return int(self.value)
+            number = int(self.value)
+            # (a digit string beyond the range of a double is no number:
+            # arithmetic with it would overflow)
+            if abs(number) <= 1.7976931348623157e308:
+                return number
         except ValueError:
             pass
         try:
@@ -268,7 +272,10 @@ class Text(ExcelType):
         except (ValueError, OverflowError):
             pass
         try:
-            return dateutil.parser.parse(self.value)
+            parsed = dateutil.parser.parse(self.value)
+            # A moment with a time zone has no serial number.
+            if parsed.tzinfo is None:
+                return parsed
         except (ValueError, OverflowError):
             pass
         raise xlerrors.ValueExcelError(
